@@ -162,7 +162,12 @@ func vHealth(tree *fakes.Tree, cs map[string]*nodestate.NodeState) {
 }
 
 func vBubble(t *testing.T, f func()) {
-	synctest.Test(t, func(t *testing.T) { f() })
+	synctest.Test(t, func(t *testing.T) {
+		f()
+		// let every pending (virtual) time-out of hanging statements fire so that no goroutine outlives the bubble
+		time.Sleep(30 * time.Minute)
+		synctest.Wait()
+	})
 }
 
 func TestVerifSmoke(t *testing.T) {
